@@ -32,6 +32,9 @@ pub const NP_VALUES: &[Option<&str>] = &[
 ];
 pub const PROBES: &[&str] = &["probe.test", "sub.probe.test", "PROBE.test"];
 
+/// explicit URL ports the probes are repeated with
+const PORTS: &[u16] = &[80, 443, 8080, 65535];
+
 #[derive(Debug, Clone, Serialize, Deserialize)]
 pub enum Case {
     Builder {
@@ -278,6 +281,18 @@ each (all 289 pairs), observed through for_url on three probe hosts and both sch
                         format!("for_url({u}) = {got:?}, model says {want:?} (no-proxy entries {ents:?}, proxies configured mask {proxies})"),
                     );
                 }
+                // the choice is made on the scheme and the host: an explicit port in the URL (default or not) changes nothing
+                for port in PORTS {
+                    let up = url::Url::parse(&format!("{sch}://{host}:{port}/x")).expect("probe url with port");
+                    let gp = settings.for_url(&up).map(|x| x.to_string());
+                    ctx.sub_evals += 1;
+                    if gp != got {
+                        return Outcome::fail(
+                            "C11:builder:port-changes-choice",
+                            format!("for_url({up}) = {gp:?} but for_url({u}) = {got:?} (no-proxy entries {ents:?}, proxies configured mask {proxies})"),
+                        );
+                    }
+                }
                 Outcome::Pass
             }
             Case::Env { vars, np_lower, np_upper } => {
@@ -340,6 +355,13 @@ each (all 289 pairs), observed through for_url on three probe hosts and both sch
                                         }
                                     }
                                 }
+                            }
+                        }
+                        for port in PORTS {
+                            let up = url::Url::parse(&format!("{sch}://{probe}:{port}/")).unwrap();
+                            let gp = settings.for_url(&up).map(|x| x.to_string());
+                            if gp != got {
+                                return Outcome::fail("C11:env:port-changes-choice", format!("for_url({up}) = {gp:?} but for_url({u}) = {got:?}; no_proxy={npl:?} NO_PROXY={npu:?}"));
                             }
                         }
                         if !acceptable.contains(&got) {
